@@ -666,8 +666,10 @@ func jsonpd(t []string) core.Result {
 	core.Count("jsonpd:" + kind)
 	impl := fmt.Sprintf("%s %s rt=%s", kind, core.HexS(txt), rt)
 	if rt != "ok" {
-		impl = kind + " ? rt=lossy" // what a lossy string looks like is encoding/json's business
+		impl = kind + " ? rt=lossy"
 	}
+	// the whole object as encoding/json wrote it: member order, omitempty, base64 of []byte
+	impl += " obj=" + core.Hex(b)
 	if rt != "ok" {
 		sig := "c16:json-roundtrip-postdata"
 		if q.Text == p.Text && q.MimeType == p.MimeType && !paramsValid(p.Params) {
@@ -712,6 +714,7 @@ func jsoncontent(t []string) core.Result {
 	if rt != "ok" {
 		impl = kind + " ? rt=lossy"
 	}
+	impl += " obj=" + core.Hex(b)
 	// the logger only produces base64 content; the plain form is exercised for the model tie only
 	if rt != "ok" && t[1] == "1" {
 		r := fail("c16:json-roundtrip-content", "Content does not survive json.Marshal/Unmarshal (%d bytes)", len(text))
